@@ -272,7 +272,9 @@ func c17Values(rng *Rng, thorough bool) (urls, relays [][2]string) {
 		{"slash-before-colon", "x/y:z"}, {"quote", `https://sp.example.com/acs?a="><script>alert(1)</script>`}, {"squote", "https://sp.example.com/it's"}, {"pct-valid", "https://sp.example.com/%C3%A9/%2F"},
 		{"pct-invalid", "https://sp.example.com/100%/%zz/%a"}, {"space", "https://sp.example.com/a b"}, {"utf8", "https://sp.example.com/é/日本"}, {"invalid-utf8", "https://sp.example.com/\xff\xfe"},
 		{"nul", "https://sp.example.com/a\x00b"}, {"crlf", "https://sp.example.com/a\r\nb"}, {"empty", ""}, {"fragment", "https://sp.example.com/acs#frag"}, {"colon-only", ":"}, {"brackets", "https://[::1]:8443/acs"},
-		{"backslash", `https:\\sp.example.com\acs`}, {"failsafe", "#ZgotmplZ"}, {"lt", "https://sp.example.com/<acs>"},
+		{"backslash", `https:\\sp.example.com\acs`},
+		{"javascript-hier", "javascript://sp.example.com/%0Aalert(document.domain)"}, {"vbscript-hier", "vbscript://sp.example.com/%0Amsgbox(1)"}, {"data-hier", "data://sp.example.com/text/html,<script>alert(1)</script>"},
+		{"app-scheme", "com.example.app://saml/acs"}, {"javascript-userinfo", "javascript://u:p@sp.example.com:443/%0Aalert(1)"}, {"failsafe", "#ZgotmplZ"}, {"lt", "https://sp.example.com/<acs>"},
 	}
 	n := 150
 	if thorough {
